@@ -1,6 +1,8 @@
 """C02 — well-formed markup parses to the structure it denotes.
 Proof (coq/C02): denotation `denote : doc -> list tree` of a document grammar; per-pass theorems against it
-(sections nest by level, list lines form the prefix tree, balanced quote runs toggle as denoted).
+(sections nest by level, list lines form the prefix tree, balanced quote runs toggle as denoted, a run one apostrophe longer than the
+markup on a line of ANY length is resolved as denoted for every tie-breaking order (ProofsApoU.v), the caption split of the table parser
+puts exactly the caption's inline tokens into the caption node, with and without an attribute part (ProofsCaption.v)).
 Tie/Search: the denotation (Python mirror, checked against the extracted Gallina `denote` on the same documents)
 is the oracle for parse_string + build_advanced_tree on serialised random documents."""
 import collections
@@ -452,8 +454,8 @@ def link_name(lab):
 
 
 def sx_doc(doc, ids):
-    """s-expression of a document for the extracted `denote`; None when the document uses block-valued cells or a table
-    caption (the Gallina grammar has inline cells only and no captions)"""
+    """s-expression of a document for the extracted `denote`; None when the document uses block-valued cells
+    (the Gallina grammar has inline cells only)"""
     out = []
     for b in doc:
         k = b[0]
@@ -465,8 +467,6 @@ def sx_doc(doc, ids):
             out.append("(12 %s)" % " ".join("((%s) (%s)%s)" % (" ".join(str(ord(ch)) for ch in p), sx_inl(inl, ids),
                                                                  "" if d is None else " (%s)" % sx_inl(d, ids)) for p, inl, d in b[1]))
         elif k == "table":
-            if len(b) > 2 and b[2] is not None:
-                return None
             rows = []
             for row in b[1]:
                 cells = []
@@ -475,7 +475,10 @@ def sx_doc(doc, ids):
                         return None
                     cells.append("(%d %s)" % (1 if hdr else 0, sx_inl(body[1], ids)))
                 rows.append("(%s)" % " ".join(cells))
-            out.append("(13 %s)" % " ".join(rows))
+            if len(b) > 2 and b[2] is not None:
+                out.append("(15 (%s) %s)" % (sx_inl(b[2][1], ids), " ".join(rows)))
+            else:
+                out.append("(13 %s)" % " ".join(rows))
         elif k == "pre":
             out.append("(14 %s)" % " ".join("(%s)" % sx_inl(ln, ids) for ln in b[1]))
     return " ".join(out)
@@ -598,6 +601,58 @@ def proofs(run, src, docs):
             dis.append("lines %r: real %s | den_list %s" % ([ln[0] + ("+" if len(ln) > 2 else "") for ln in c["lines"]], json.dumps(real)[:300], str(o)[:300]))
     run.tie("ParseLines: real pass on prefixed line token lists (with and without a top-level colon) vs extracted den_list "
             "(the denoted prefix tree) and vs the extracted loop model analyze_model", len(cases), dis)
+    caption_tie(run, src)
+
+
+def caption_tie(run, src):
+    """C02_caption_split_plain / _attrs on the REAL TableParser.find_caption: for token lists that satisfy the hypotheses the real
+    children afterwards are  ws ++ [caption(body)] ++ stop :: rest  (tokens identified by their position)"""
+    import itertools
+    rng = run.rng
+    quick = run.tier == "quick"
+    walk = ["text", "blank", "bar", "open", "close", "ref", "quote", "colon"]          # cap_tok = true
+    attrk = ["text", "blank", "close", "quote", "colon"]                               # no bar, no open
+    stops = ["nl", "break", "row"]
+
+    def open_first(body):
+        for kd in body:
+            if kd == "open":
+                return True
+            if kd == "bar":
+                return False
+        return True
+    cases = []
+
+    def add(ws, attrs, body, stop, rest):
+        toks = list(ws) + ["cap"] + (list(attrs) + ["bar"] if attrs is not None else []) + list(body) + [stop] + list(rest)
+        n0 = len(ws) + 1 + (len(attrs) + 1 if attrs is not None else 0)
+        want = list(range(len(ws))) + [["cap", list(range(n0, n0 + len(body)))]] + list(range(n0 + len(body), len(toks)))
+        cases.append({"id": len(cases), "k": "C", "toks": toks, "want": want, "attrs": attrs is not None})
+    for ln in range(0, 4 if quick else 5):
+        for body in itertools.product(walk, repeat=ln):
+            if open_first(body):
+                add(["nl"], None, body, stops[len(cases) % 3], ["row"])
+            add(["nl"], ["text"], body, stops[len(cases) % 3], ["row"])
+    for _ in range(1500 if quick else 20000):
+        ws = [rng.choice(["nl", "blank", "break"]) for _ in range(rng.choice([0, 1, 1, 2, 3]))]
+        body = [rng.choice(walk) for _ in range(rng.choice([0, 1, 2, 3, 5, 8, 12]))]
+        rest = [rng.choice(walk + stops + ["cap", "row"]) for _ in range(rng.choice([0, 1, 2, 4]))]
+        if rng.random() < 0.5:
+            add(ws, [rng.choice(attrk) for _ in range(rng.choice([0, 1, 2, 3]))], body, rng.choice(stops), rest)
+        else:
+            if not open_first(body):
+                k = body.index("bar")
+                body.insert(rng.randint(0, k), "open")
+            add(ws, None, body, rng.choice(stops), rest)
+    res = _units(src, [{"id": c["id"], "k": "C", "toks": c["toks"]} for c in cases])
+    dis = []
+    for c in cases:
+        real = res[c["id"]].get("out", res[c["id"]].get("exc"))
+        if real != c["want"]:
+            dis.append("find_caption(%s): real %s, theorem %s" % (" ".join(c["toks"]), json.dumps(real), json.dumps(c["want"])))
+    run.tie("TableParser.find_caption: real children of the table vs the right-hand sides of C02_caption_split_plain / _attrs on token lists "
+            "that satisfy their hypotheses (%d without, %d with an attribute part)" % (sum(1 for c in cases if not c["attrs"]), sum(1 for c in cases if c["attrs"])),
+            len(cases), dis)
 
 
 def _inline_kinds(inl, acc):
@@ -705,7 +760,9 @@ def check(run):
                    "the bundled siteinfo JSON files as the definition of what a prefix means in a language (namespaces: '*', 'canonical', "
                    "namespacealiases, case-insensitive; interwikimap: prefix, 'language'); lookup re-implemented in G.NsOracle",
                    "vt/harness/c02_impl.py mode iso: a child forked from a parent that imported mwlib but never parsed stands for a fresh process",
-                   "hand-written Gallina models of the section builder, ParseLines.analyze and compute_path (coq/C01, coq/C02)"]
+                   "hand-written Gallina models of the section builder, ParseLines.analyze and compute_path (coq/C01, coq/C02) and of "
+                   "TableParser.find_caption (coq/C01/PassesTable.v; abstraction of tokens to the kinds the loops branch on); the caption "
+                   "theorems are additionally compared with the real find_caption on token lists that satisfy their hypotheses"]
     run.assumptions = ["only well-formed constructs of the grammar; apostrophe runs adjacent only as the runs of five of a span touching the edge "
                        "of its enclosing span, or as ONE run per physical line that is one apostrophe longer than the markup (3 for "
                        "italic, 4 for bold); a line with such a run of three has no other run of three or five (MediaWiki picks the "
@@ -777,7 +834,7 @@ def check(run):
         # parsed before it (state shared between parses, e.g. between site languages): minimise that history as well
         alone = mismatch(src, case) if key[1] != "corpus-history" else None
         if key[1] == "corpus-history":
-            history = [dict(h) for h in case["history"]]
+            history = [dict(h) for h in (minimise_history(src, case, case["history"]) or case["history"])]
         elif not (alone and alone[0] == kind):
             k = pos[case["id"]]
             earlier = [docs[j] for j in range(k % NSHARDS, k, NSHARDS)]
